@@ -22,6 +22,7 @@ type Server struct {
 	mu             sync.RWMutex
 	logger         hclog.Logger
 	connWg         sync.WaitGroup
+	connWgMu       sync.Mutex // orders connWg.Add(...) in Run with the shutdown cancel in Stop
 	listener       net.Listener
 	listenerReady  bool
 	router         *Mux
@@ -200,7 +201,18 @@ func (s *Server) Run(addr string, opt ...Option) error {
 		}
 		localConnID := connID
 		verifPoint("run.accepted", connID, 0)
+		// a conn accepted while the server stops must not be served: its
+		// connWg.Add(1) could come after Stop's connWg.Wait() has returned
+		s.connWgMu.Lock()
+		select {
+		case <-s.shutdownCtx.Done():
+			s.connWgMu.Unlock()
+			_ = c.Close()
+			continue
+		default:
+		}
 		s.connWg.Add(1)
+		s.connWgMu.Unlock()
 		verifPoint("run.added", connID, 0)
 		go func() {
 			verifPoint("conn.start", localConnID, 0)
@@ -292,7 +304,9 @@ func (s *Server) Stop() error {
 	verifPoint("stop.lclosed", 0, 0)
 	if s.shutdownCancel != nil {
 		s.logger.Debug("shutdown cancel func")
+		s.connWgMu.Lock()
 		s.shutdownCancel()
+		s.connWgMu.Unlock()
 	}
 	verifPoint("stop.cancelled", 0, 0)
 	s.logger.Debug("waiting on connections to close")
